@@ -78,7 +78,10 @@ func (s *StorageClient) prepare(key string, isPath bool) *store.KeyInfo {
 }
 
 func (s *StorageClient) listDir(path string) (*mc.Item, error) {
-	// TODO: check valid
+	if len(path) > 16 {
+		// a path is at most the 16 hex digits of a key hash
+		return nil, fmt.Errorf("bad path %s", path)
+	}
 	ki := s.prepare(path, true)
 	body, err := s.hstore.ListDir(ki)
 	if err != nil {
